@@ -19,7 +19,7 @@ ENVELOPE = 16.0
 
 def gen_nodes(rng):
     m = rng.randint(2, 14)
-    kind = rng.choice(['uniform', 'random', 'clustered', 'permuted', 'onesided', 'dyadic', 'almost-uniform', 'integers'])
+    kind = rng.choice(['uniform', 'random', 'clustered', 'permuted', 'onesided', 'dyadic', 'almost-uniform', 'integers', 'offset'])
     if kind == 'almost-uniform':
         h = rng.choice([1.0, 0.5, 0.1, 1e-3, 1e-7])
         rel = 10.0 ** rng.uniform(-9, -3)
@@ -31,6 +31,17 @@ def gen_nodes(rng):
         sp = rng.choice([1, 1, 2, 7, 30])
         c0 = rng.randint(-5, 5)
         xs = [c0 + sp * (i - m // 2) for i in range(m)] if rng.random() < 0.7 else sorted(rng.sample(range(-40, 41), m))
+    elif kind == 'offset':
+        # a stencil far from the origin compared with its spacing (time stamps 1.7e9 + 0.1 k, x ~ 1e6 with spacing 1e-3, extremely fine
+        # stencils around 0.75): the weights depend on the differences x_v - x0 only, which are formed exactly here (every node is a
+        # float and so is every difference of neighbouring ones)
+        c = rng.choice([0.75, 1.0 / 32, 0.001, 1.0e6, 1.7e9, -3.0e4, 12.5])
+        h = rng.choice([2.0 ** -43, 2.0 ** -46, 1e-15, 1e-3, 0.1, 2.0 ** -20, 3e-13]) * max(1.0, abs(c)) * rng.choice([1.0, 1.0, 4096.0])
+        m = rng.choice([m, 12, 13, 14])
+        shift = rng.choice([0, m // 2])
+        xs = [c + h * (i - shift) for i in range(m)]
+        if rng.random() < 0.3:
+            rng.shuffle(xs)
     elif kind == 'uniform':
         h = rng.choice([1.0, 0.5, 0.1, 1e-3, 2.0 ** -rng.randint(0, 12)])
         c = rng.uniform(-5, 5)
@@ -175,7 +186,7 @@ def run(ctx):
                     else:
                         fornberg.fd_weights_all(np.array(xs, dtype=np.float32), np.float32(x0), n)
             xs_arg = np.array(xs)
-            if all(float(v) == int(v) for v in xs) and rng.random() < 0.7:
+            if all(float(v) == int(v) and abs(v) < 2 ** 31 for v in xs) and rng.random() < 0.7:
                 # whole-number nodes given as what a user types: a list of Python ints, a range-like integer array
                 xs_arg = rng.choice([[int(v) for v in xs], np.array([int(v) for v in xs]), np.array([int(v) for v in xs], dtype=np.int32)])
             w = fornberg.fd_weights_all(xs_arg, x0, n)
